@@ -258,8 +258,15 @@ def eval_cases(ctx, corr_module, cases, tag="cases", shard=400, extra_q=()):
         if rc != 0 or a is None or b is None or c is None:
             return None, None, None, "coqc failed on %s: %s" % (os.path.basename(p), out[-600:])
         mism += [base + int(x) for x in re.findall(r"(\d+)%N", a)]
-        for m in re.finditer(r"\((\d+)%N,\s*\[([^\]]*)\]\)", b):
+        # Coq wraps long lists wherever a break is allowed, also right after an opening parenthesis
+        found = 0
+        for m in re.finditer(r"\(\s*(\d+)%N\s*,\s*\[([^\]]*)\]\s*\)", b):
             monf.append((base + int(m.group(1)), [int(x) for x in re.findall(r"(\d+)%N", m.group(2))]))
+            found += 1
+        # every inner list of the printed term is one entry: nothing may be lost to the printer's layout
+        if found != max(0, b.count("[") - 1):
+            return None, None, None, "could not read the monitor's answer in %s: %d of %d entries" % (
+                os.path.basename(p), found, b.count("[") - 1)
         tags += [int(x) for x in re.findall(r"(\d+)%N", c)]
     return mism, monf, tags, None
 
